@@ -250,4 +250,7 @@ def run(chk, ctx):
     r4(chk, ctx)
     from . import round3
     round3.reply_size_on_received_text(chk, ctx)
+    from . import round4
+    round4.measured_is_forwarded(chk, ctx)
+    round4.frontends_read_alike(chk, ctx)    # an empty name is refused by both front ends
     chk.assume("len() of a str counts characters (code points), which is what the service quota counts")
